@@ -7,7 +7,8 @@
 (*               upscale, Decimal.Neg, Decimal.Abs, Decimal.Reduce         *)
 (*   context.go  Context.add (Add / Sub), Context.Mul (setExponent on the  *)
 (*               unrounded product, then round), Context.Abs / Neg,        *)
-(*               Context.Reduce (round first, then strip zeros)            *)
+(*               Context.Reduce (round first, then strip zeros),           *)
+(*               quoSpecials + Context.QuoInteger, Context.Rem             *)
 (* MC_AlgArith checks each against layer 1 (Spec_AddSub, Spec_Mul,         *)
 (* CmpSpec, Spec_Unary) on a boundary domain; the pinned configurations    *)
 (* remove one branch each (the -0 rule of an exact zero difference under   *)
@@ -78,6 +79,31 @@ AlgMul(ctx, x, y) ==
   ELSE LET s == SetExponent(ctx, neg, Mul(x.c, y.c), x.e + y.e, {}) IN
        IF s.f # FIN THEN Out(s.f, neg, s.c, s.e, s.fl)
        ELSE LET r == RoundTo(ctx, neg, s.c, s.e) IN [r EXCEPT !.fl = s.fl \cup r.fl]
+
+\* quoSpecials(canClamp = FALSE) then Context.QuoInteger: aligned integer division, the digit limit, exponent 0
+\* (Precision 0 is refused with an error: outside the domain)
+AlgQuoInt(ctx, x, y) ==
+  LET neg == (x.n # y.n) IN
+  IF x.f = INF \/ y.f = INF THEN
+     (IF x.f = INF /\ y.f = INF THEN Out(QNAN, FALSE, <<>>, 0, {F_INVALID})
+      ELSE IF x.f = INF THEN Out(INF, neg, <<>>, 0, {})
+      ELSE Out(FIN, neg, <<>>, 0, {}))
+  ELSE IF SignD(y) = 0 THEN
+     (IF SignD(x) = 0 THEN Out(QNAN, FALSE, <<>>, 0, {F_DIVUNDEF}) ELSE Out(INF, neg, <<>>, 0, {F_DIVZERO}))
+  ELSE LET u == Upscale(x, y)
+           q == DivMod(u[1], u[2])[1]
+       IN IF NumDigits(q) > ctx.p THEN Out(QNAN, FALSE, <<>>, 0, {F_DIVIMP}) ELSE Out(FIN, neg, q, 0, {})
+
+\* Context.Rem.  remsign = FALSE: the remainder takes the quotient's sign instead of the dividend's
+AlgRemP(ctx, x, y, remsign) ==
+  IF x.f # FIN THEN Out(QNAN, FALSE, <<>>, 0, {F_INVALID})
+  ELSE IF y.f = INF THEN RoundTo(ctx, x.n, x.c, x.e)
+  ELSE IF SignD(y) = 0 THEN Out(QNAN, FALSE, <<>>, 0, IF SignD(x) = 0 THEN {F_DIVUNDEF} ELSE {F_INVALID})
+  ELSE LET u == Upscale(x, y)
+           qr == DivMod(u[1], u[2])
+       IN IF NumDigits(qr[1]) > ctx.p THEN Out(QNAN, FALSE, <<>>, 0, {F_DIVIMP})
+          ELSE RoundTo(ctx, IF remsign THEN x.n ELSE (x.n # y.n), qr[2], u[3])
+AlgRem(ctx, x, y) == AlgRemP(ctx, x, y, TRUE)
 
 \* Context.Abs / Context.Neg (Decimal.Neg turns -0 into 0) / Context.Round
 AlgUnary(ctx, x, op) ==
